@@ -8,7 +8,7 @@ Import RecordSetNotations.
 From VDrv Require Import Queue Handoff QueueSafety.
 
 Definition epc_handler (p : epc) : bool :=
-  match p with EPop | ESend _ | ERet _ | ERetNotify _ | EQ _ _ | EQNotify _ | EEnd _ => true | _ => false end.
+  match p with EPop | ESend _ | EEmpty _ | EEmptyNotify _ | ERet _ | ERetNotify _ | EQ _ _ | EQNotify _ | EEnd _ => true | _ => false end.
 (** the goroutine will execute noMoreEvent() again *)
 Definition epc_prereturn (p : epc) : bool :=
   match p with ECheck | ELock => true | _ => epc_handler p end.
@@ -17,25 +17,27 @@ Definition epc_preclear (p : epc) : bool :=
 Definition epc_returned (p : epc) : bool := match p with EReturned => true | _ => false end.
 (** Tick will report progress, hence TickLater *)
 Definition epc_mp (p : epc) : bool :=
-  match p with ESend true | ERet true | ERetNotify _ | EQ _ true | EQNotify _ | EEnd true => true | _ => false end.
+  match p with ESend true | EEmpty true | EEmptyNotify _ | ERet true | ERetNotify _ | EQ _ true | EQNotify _ | EEnd true => true | _ => false end.
 (** the running Tick will still look at queue q *)
 Definition epc_visits (q : nat) (p : epc) : bool :=
   match p with
-  | ESend _ | ERet _ | ERetNotify _ => true
+  | ESend _ | EEmpty _ | EEmptyNotify _ | ERet _ | ERetNotify _ => true
   | EQ i _ => Nat.leb i q
   | EQNotify i => Nat.ltb i q
   | _ => false
   end.
 Definition epc_notifies (q : nat) (p : epc) : bool :=
-  match p with ERetNotify i | EQNotify i => Nat.eqb i q | _ => false end.
+  match p with ERetNotify i | EQNotify i | EEmptyNotify i => Nat.eqb i q | _ => false end.
 Definition epc_index_ok (nq : nat) (p : epc) : bool :=
-  match p with ERetNotify i | EQNotify i | EQ i _ => Nat.ltb i nq | _ => true end.
+  match p with ERetNotify i | EQNotify i | EEmptyNotify i | EQ i _ => Nat.ltb i nq | _ => true end.
 Definition epc_needs_event (p : epc) : bool := match p with ELock | EPop => true | _ => false end.
-Definition epc_at_ret (p : epc) : bool := match p with ESend _ | ERet _ => true | _ => false end.
+Definition epc_at_ret (p : epc) : bool := match p with ESend _ | EEmpty _ | EEmptyNotify _ | ERet _ => true | _ => false end.
+(** the running Tick has not finished completeEmptyCopies yet *)
+Definition epc_at_empty (p : epc) : bool := match p with ESend _ | EEmpty _ | EEmptyNotify _ => true | _ => false end.
 Definition epc_at_send (p : epc) : bool := match p with ESend _ => true | _ => false end.
 
 (** requests built, sent or answered and not yet consumed by the driver *)
-Definition flight (s : state) : list nat := tosend s ++ gpu s ++ resp s.
+Definition flight (s : state) : list nat := empties s ++ tosend s ++ gpu s ++ resp s.
 
 Definition ebool (f : epc -> bool) (e : option epc) : bool :=
   match e with Some p => f p | None => false end.
@@ -104,6 +106,7 @@ Record inv (s : state) : Prop := mkInv {
   i_index : ebool (epc_index_ok (length (queues s))) (eng s) = true \/ eng s = None;
   i_resp : nonempty (resp s) = true -> tick s || ebool (fun p => epc_at_ret p || epc_mp p) (eng s) = true;
   i_send : nonempty (tosend s) = true -> tick s || ebool (fun p => epc_at_send p || epc_mp p) (eng s) = true;
+  i_empty : nonempty (empties s) = true -> tick s || ebool (fun p => epc_at_empty p || epc_mp p) (eng s) = true;
   i_flight : NoDup (flight s) /\
              forall q, In q (flight s) ->
                        exists qq, nth_error (queues s) q = Some qq /\ q_running qq = true /\ q_cmds qq <> [];
@@ -220,6 +223,10 @@ Proof.
       pose proof (N _ (in_labels_gpu s q Hq)) as Ng. unfold step in Ng. rewrite (i_crash s I), E in Ng.
       apply mem_nat_In in Hq. rewrite Hq in Ng. discriminate.
     - destruct (tosend s); discriminate.
+    - destruct (empties s) as [|q' r']; [discriminate|]. destruct (nth_error (queues s) q') as [qq|]; [|discriminate].
+      destruct (q_cmds qq); [discriminate|]. destruct (q_running qq); discriminate.
+    - destruct Hi as [Hi|Hi]; [|discriminate]. apply Nat.ltb_lt in Hi.
+      destruct (nth_error_lt_some _ _ Hi) as (qq & Eq). rewrite Eq in Neng. discriminate.
     - destruct (resp s); [discriminate|]. destruct (match_response s n) as [q'|]; [|discriminate].
       destruct (nth_error (queues s) q') as [qq|]; [|discriminate].
       destruct (q_cmds qq); [discriminate|]. destruct (q_running qq); discriminate.
@@ -244,6 +251,9 @@ Proof.
     rewrite T in H. destruct (resp s); [reflexivity|]. specialize (H eq_refl). discriminate. }
   assert (Gp : gpu s = []).
   { unfold events in Ev. apply orb_false_iff in Ev. destruct Ev as (_ & G). destruct (gpu s); [reflexivity|discriminate]. }
+  assert (Es : empties s = []).
+  { pose proof (i_empty s I) as H. rewrite Eng in H. unfold events in Ev. apply orb_false_iff in Ev. destruct Ev as (T & _).
+    rewrite T in H. destruct (empties s); [reflexivity|]. specialize (H eq_refl). discriminate. }
   assert (Ts : tosend s = []).
   { pose proof (i_send s I) as H. rewrite Eng in H. unfold events in Ev. apply orb_false_iff in Ev. destruct Ev as (T & _).
     rewrite T in H. destruct (tosend s); [reflexivity|]. specialize (H eq_refl). discriminate. }
@@ -261,7 +271,7 @@ Proof.
   destruct Hw as (_ & qq & Eq & [Hc | Hn]); [|rewrite Eng in Hn; discriminate].
   destruct (i_queues s I q qq Eq) as (Hwork & Hrun).
   assert (Rn : q_running qq = false).
-  { destruct (q_running qq); [|reflexivity]. specialize (Hrun eq_refl). unfold flight in Hrun. rewrite Ts, Gp, Rs in Hrun. destruct Hrun. }
+  { destruct (q_running qq); [|reflexivity]. specialize (Hrun eq_refl). unfold flight in Hrun. rewrite Es, Ts, Gp, Rs in Hrun. destruct Hrun. }
   destruct (Hwork Hc Rn) as [Tc | (t' & a' & Ht' & D)]; [|eapply Nd; eauto].
   unfold tick_coming in Tc. rewrite Ev, Ra, Eng in Tc. discriminate.
 Qed.
